@@ -1,6 +1,7 @@
 package parser
 
 import (
+	"math"
 	"strconv"
 
 	"github.com/go-python/gpython/ast"
@@ -11,6 +12,8 @@ import (
 // that the (real) lexer and parser read back as an equal value.
 
 var c14Runes = []rune{'a', '\'', '"', '\\', 0, '\n', 0x7f, 0xe9, 0x800, 0x2070e, '\t', 0x80}
+var c14Floats = []float64{0.0, math.Copysign(0, -1), 1.5, -2.25, 0.1, 1e16, 1e22, 1e-7, 5e-324, 1.7976931348623157e308, 123456789.125}
+
 var c14Bytes = []byte{'a', '\'', '"', '\\', 0, '\n', 0x7f, 0x80, 0xff, '\t'}
 
 // c14Eval evaluates the literal subset of expressions
@@ -56,7 +59,9 @@ func c14Eval(e ast.Expr) (py.Object, bool) {
 }
 
 func c14Leaf(name string) py.Object {
-	switch verifChoice(name+"_kind", 3) {
+	switch verifChoice(name+"_kind", 4) {
+	case 3: // a float from a list of special and ordinary values (float text is concrete: no symbolic formatting)
+		return py.Float(c14Floats[verifChoice(name+"_float", len(c14Floats))])
 	case 0: // str of 0..2 code points
 		k := verifChoice(name+"_len", verifBound(2, 3))
 		rs := make([]rune, k)
@@ -102,6 +107,9 @@ func c14Same(a, b py.Object) bool {
 	case py.Bytes:
 		y, ok := b.(py.Bytes)
 		return ok && string(x) == string(y)
+	case py.Float:
+		y, ok := b.(py.Float)
+		return ok && math.Float64bits(float64(x)) == math.Float64bits(float64(y))
 	}
 	return a == b
 }
